@@ -232,6 +232,43 @@ func init() {
 		}
 		return out
 	})
+	// OutLines: what was printed to standard output through fmt.Printf/Println so far
+	// (Printf lines rendered with the format model; if an operand cannot be rendered,
+	// the line is the space-separated string operands).
+	reg(rtPkg+".OutLines", func(fr *frame, args []value) value {
+		var out []value
+		for _, e := range fr.path().events {
+			if (e.Kind != "fmt.Printf" && e.Kind != "fmt.Println") || len(e.Args) == 0 {
+				continue
+			}
+			ev := e
+			line := func() (res value) {
+				defer func() {
+					if r := recover(); r != nil {
+						if _, ok := r.(engineError); !ok {
+							panic(r)
+						}
+						parts := []string{}
+						for _, a := range ev.Args[1:] {
+							if s, ok := a.(string); ok {
+								parts = append(parts, s)
+							}
+						}
+						res = strings.Join(parts, " ")
+					}
+				}()
+				if ev.Kind == "fmt.Println" {
+					return fr.i.symSprint(ev.Args, false)
+				}
+				return fr.i.symSprintf(ev.Args[0], ev.Args[1:])
+			}()
+			if s, ok := line.(string); ok {
+				line = strings.TrimSuffix(s, "\n")
+			}
+			out = append(out, line)
+		}
+		return out
+	})
 	reg(rtPkg+".Symbolic", func(fr *frame, args []value) value { return true })
 	reg(rtPkg+".Concrete", func(fr *frame, args []value) value {
 		// Concrete(x string) string: fork over nothing; value must already be concrete
